@@ -66,6 +66,25 @@ func c15Scenarios(tier string) []*hist.Scenario {
 				N: 2, Init: f.init, Alphabet: []string{op}, K: 2, U: 1, Y: 3, Cfg: never})
 		}
 	}
+	// undo of the deletion of a node that was inserted in front of an older
+	// sibling, after the peer has collected its tombstone: the peer has to
+	// recreate the node from what the undo change carries (seeded change C09-4:
+	// an anchor lost in the encoding of the restore span). One client edits, the
+	// other only syncs; both role assignments
+	for _, tr := range [][]string{{"tr.insP0", "tr.delP0"}, {"tr.insT0", "tr.delT0"}, {"a.ins0", "a.del0"}, {"t.ins0", "t.delF"}} {
+		init := map[byte]string{'a': "init.a", 't': "init.t"}[tr[0][0]]
+		if strings.HasPrefix(tr[0], "tr.") {
+			init = "init.tr"
+		}
+		for swap := 0; swap < 2; swap++ {
+			pc := [][]string{tr, {}}
+			if swap == 1 {
+				pc[0], pc[1] = pc[1], pc[0]
+			}
+			out = append(out, &hist.Scenario{Name: fmt.Sprintf("c15/restore-front/%s/swap%d/N2K2U1Y3", strings.Join(tr, "+"), swap),
+				N: 2, Init: []string{init}, Alphabet: tr, PerClient: pc, K: 2, U: 1, Y: 3, Cfg: never})
+		}
+	}
 	if tier == "quick" {
 		return out
 	}
